@@ -150,7 +150,8 @@ def _c14_literal(rec):
         return False
     multi = any(isinstance(n, ast.Constant) and isinstance(n.value, (str, bytes)) and n.end_lineno > n.lineno for n in ast.walk(tree)) or \
         any(isinstance(n, ast.JoinedStr) and n.end_lineno > n.lineno for n in ast.walk(tree))
-    return multi and any(before and not before.strip() for before, _ in _c14_match_lines(rec))
+    # (the line on which the match starts is indented: the replacement's later lines are shifted by that indentation, wherever on the line the match starts)
+    return multi and any(before[:1] in (" ", "\t") for before, _ in _c14_match_lines(rec))
 
 
 @classifier("sub-wildcard-named-root-is-the-match-itself")
